@@ -101,28 +101,30 @@ Fixpoint words (s : string) : list string :=
            end
   end.
 
-(* str.splitlines() *)
-Fixpoint splitlines (s : string) : list string :=
+(* str.splitlines(): lines ended by a line break (\r\n counts once), plus the
+   unterminated rest when it is not empty.
+   sl s = None for the empty text, Some (first line, other lines) otherwise *)
+Definition opt_lines (o : option (string * list string)) : list string :=
+  match o with None => [] | Some (l, ls) => l :: ls end.
+
+Fixpoint sl (s : string) : option (string * list string) :=
   match s with
-  | EmptyString => []
+  | EmptyString => None
   | String c r =>
       if is_linebreak c then
-        "" :: (if ceq c cr
-               then match r with
-                    | String d r' => if ceq d nl then splitlines r' else splitlines r
-                    | EmptyString => []
-                    end
-               else splitlines r)
-      else match splitlines r with
-           | [] => [String c ""]
-           | l :: ls =>
-               match r with
-               | EmptyString => [String c ""]
-               | String d _ => if is_linebreak d then String c "" :: splitlines r
-                               else String c l :: ls
-               end
+        Some ("", opt_lines (if ceq c cr
+                             then match r with
+                                  | String d r' => if ceq d nl then sl r' else sl r
+                                  | EmptyString => None
+                                  end
+                             else sl r))
+      else match sl r with
+           | None => Some (String c "", [])
+           | Some (l, ls) => Some (String c l, ls)
            end
   end.
+
+Definition splitlines (s : string) : list string := opt_lines (sl s).
 
 (* text.split('\n') *)
 Fixpoint split_nl (s : string) : list string :=
